@@ -197,11 +197,13 @@ instance (i : Inputs) : Decidable (noSideCFiles i) := by unfold noSideCFiles; ex
 instance (i₁ i₂ : Inputs) : Decidable (sameCompilerEnv i₁ i₂) := by unfold sameCompilerEnv; exact inferInstance
 instance (i : Inputs) : Decidable (noEmbed i) := by unfold noEmbed; exact inferInstance
 
-/-- the conjunction under which the transcribed key determines the relevant inputs -/
-def Hyp (i₁ i₂ : Inputs) : Prop :=
-  mtimeChangesWithContent i₁ i₂ ∧ noSideCFiles i₁ ∧ noSideCFiles i₂ ∧ sameCompilerEnv i₁ i₂ ∧ noEmbed i₁ ∧ noEmbed i₂
+/-- the conjunction under which the transcribed key of variant `cfg` determines the relevant inputs: H1 is needed only
+    without content hashes, H3 only when the compiler environment is not in the manifest -/
+def Hyp (cfg : Cfg) (i₁ i₂ : Inputs) : Prop :=
+  (cfg.contentHash = false → mtimeChangesWithContent i₁ i₂) ∧ noSideCFiles i₁ ∧ noSideCFiles i₂
+    ∧ (cfg.ccflagsEnv = false → sameCompilerEnv i₁ i₂) ∧ noEmbed i₁ ∧ noEmbed i₂
 
-instance (i₁ i₂ : Inputs) : Decidable (Hyp i₁ i₂) := by unfold Hyp; exact inferInstance
+instance (cfg : Cfg) (i₁ i₂ : Inputs) : Decidable (Hyp cfg i₁ i₂) := by unfold Hyp; exact inferInstance
 
 theorem mem_allL {t : PkgT} {ts : List PkgT} (ht : t ∈ ts) : ∀ x ∈ t.all, x ∈ PkgT.allL ts := by
   induction ts with
@@ -225,11 +227,11 @@ theorem files_sub {g : Global} {d : PkgData} {deps : List PkgT} {t : PkgT} (ht :
   · exact Or.inl hf
   · exact Or.inr ⟨x, all_sub ht x hx, hf⟩
 
-theorem Hyp.sub {g₁ g₂ : Global} {d₁ d₂ : PkgData} {deps₁ deps₂ : List PkgT} {a b : PkgT}
-    (h : Hyp (g₁, .mk d₁ deps₁) (g₂, .mk d₂ deps₂)) (ha : a ∈ deps₁) (hb : b ∈ deps₂) : Hyp (g₁, a) (g₂, b) := by
+theorem Hyp.sub {cfg : Cfg} {g₁ g₂ : Global} {d₁ d₂ : PkgData} {deps₁ deps₂ : List PkgT} {a b : PkgT}
+    (h : Hyp cfg (g₁, .mk d₁ deps₁) (g₂, .mk d₂ deps₂)) (ha : a ∈ deps₁) (hb : b ∈ deps₂) : Hyp cfg (g₁, a) (g₂, b) := by
   obtain ⟨h1, h2, h3, h4, h5, h6⟩ := h
   refine ⟨?_, ?_, ?_, h4, ?_, ?_⟩
-  · exact fun f₁ hf₁ f₂ hf₂ => h1 f₁ (files_sub ha f₁ hf₁) f₂ (files_sub hb f₂ hf₂)
+  · exact fun hc f₁ hf₁ f₂ hf₂ => h1 hc f₁ (files_sub ha f₁ hf₁) f₂ (files_sub hb f₂ hf₂)
   · exact fun d hd => h2 d (all_sub ha d hd)
   · exact fun d hd => h3 d (all_sub hb d hd)
   · exact fun d hd => h5 d (all_sub ha d hd)
@@ -238,45 +240,49 @@ theorem Hyp.sub {g₁ g₂ : Global} {d₁ d₂ : PkgData} {deps₁ deps₂ : Li
 /-! ## digests ⇒ contents -/
 
 section KeyLemmas
-variable {φ : Type} (hb : Bytes → φ) (fp : Manifest φ → φ)
+variable {φ : Type} (cfg : Cfg) (hb : Bytes → φ) (fp : Manifest φ → φ)
 
-theorem digestFile_path (f : File) : (digestFile hb f).path = f.path := by
+theorem digestFile_path (f : File) : (digestFile cfg hb f).path = f.path := by
   unfold digestFile; split <;> rfl
 
 theorem digestFiles_eq (fs : List File) :
-    digestFiles hb fs = (isort (fun a b => strLe a.path b.path) fs).map (digestFile hb) := by
+    digestFiles cfg hb fs = (isort (fun a b => strLe a.path b.path) fs).map (digestFile cfg hb) := by
   unfold digestFiles
-  exact isort_map _ (digestFile hb) _ (fun a b => by simp [digestFile_path]) fs
+  exact isort_map _ (digestFile cfg hb) _ (fun a b => by simp [digestFile_path]) fs
 
 theorem relFiles_eq (fs : List File) :
     relFiles fs = (isort (fun a b => strLe a.path b.path) fs).map (fun f => (f.path, f.effective)) := by
   unfold relFiles
   exact isort_map _ (fun f : File => (f.path, f.effective)) _ (fun a b => rfl) fs
 
+/-- equal digests ⇒ equal content: by the content hash when the variant has one, else by hypothesis H1 -/
 theorem digest_content (hinj : Function.Injective hb) (f₁ f₂ : File)
-    (hm : f₁.overlay = none → f₂.overlay = none → f₁.path = f₂.path → f₁.size = f₂.size → f₁.mtime = f₂.mtime →
-      f₁.content = f₂.content)
-    (h : digestFile hb f₁ = digestFile hb f₂) : (f₁.path, f₁.effective) = (f₂.path, f₂.effective) := by
+    (hm : cfg.contentHash = false → f₁.overlay = none → f₂.overlay = none → f₁.path = f₂.path → f₁.size = f₂.size →
+      f₁.mtime = f₂.mtime → f₁.content = f₂.content)
+    (h : digestFile cfg hb f₁ = digestFile cfg hb f₂) : (f₁.path, f₁.effective) = (f₂.path, f₂.effective) := by
   unfold digestFile at h
   unfold File.effective
   cases h1 : f₁.overlay <;> cases h2 : f₂.overlay <;> simp only [h1, h2, FileDigest.mk.injEq] at h
-  · obtain ⟨hp, hs, ht, _⟩ := h
-    simp [hp, hm h1 h2 hp hs ht]
-  · exact absurd h.2.2.2 (by simp)
-  · exact absurd h.2.2.2 (by simp)
-  · obtain ⟨hp, _, _, hh⟩ := h
+  · obtain ⟨hp, hs, ht, hsha, _⟩ := h
+    cases hc : cfg.contentHash
+    · simp [hp, hm hc h1 h2 hp hs ht]
+    · simp only [hc, if_true, Option.some.injEq] at hsha
+      simp [hp, hinj hsha]
+  · exact absurd h.2.2.2.2 (by simp)
+  · exact absurd h.2.2.2.2 (by simp)
+  · obtain ⟨hp, _, _, _, hh⟩ := h
     have := hinj (Option.some.inj hh)
     simp [hp, this]
 
 theorem relFiles_of_digestFiles (hinj : Function.Injective hb) (fs₁ fs₂ : List File)
-    (hm : ∀ f₁ ∈ fs₁, ∀ f₂ ∈ fs₂, f₁.overlay = none → f₂.overlay = none → f₁.path = f₂.path → f₁.size = f₂.size →
-      f₁.mtime = f₂.mtime → f₁.content = f₂.content)
-    (h : digestFiles hb fs₁ = digestFiles hb fs₂) : relFiles fs₁ = relFiles fs₂ := by
+    (hm : cfg.contentHash = false → ∀ f₁ ∈ fs₁, ∀ f₂ ∈ fs₂, f₁.overlay = none → f₂.overlay = none → f₁.path = f₂.path →
+      f₁.size = f₂.size → f₁.mtime = f₂.mtime → f₁.content = f₂.content)
+    (h : digestFiles cfg hb fs₁ = digestFiles cfg hb fs₂) : relFiles fs₁ = relFiles fs₂ := by
   rw [digestFiles_eq, digestFiles_eq] at h
   rw [relFiles_eq, relFiles_eq]
   refine map_eq_map_of_rel _ _ _ _ _ _ h ?_
   intro a ha b hb' hd
-  exact digest_content hb hinj a b (hm a ((mem_isort _).1 ha) b ((mem_isort _).1 hb')) hd
+  exact digest_content cfg hb hinj a b (fun hc => hm hc a ((mem_isort _).1 ha) b ((mem_isort _).1 hb')) hd
 
 /-! ## environment variables -/
 
@@ -317,46 +323,58 @@ theorem OptLevel.flag_inj {a b : OptLevel} (h : a.flag = b.flag) : a = b := by
 
 /-! ## key ⇒ relevant -/
 
+theorem envNames_nodup (cfg : Cfg) : (envNames cfg).Nodup := by
+  unfold envNames; split <;> decide
+
 theorem globRel_of_sections (hinj : Function.Injective hb) (g₁ g₂ : Global)
-    (hm : ∀ f₁ ∈ g₁.extraFiles.map File.noOverlay, ∀ f₂ ∈ g₂.extraFiles.map File.noOverlay, f₁.overlay = none → f₂.overlay = none → f₁.path = f₂.path →
+    (hm : cfg.contentHash = false → ∀ f₁ ∈ g₁.extraFiles.map File.noOverlay, ∀ f₂ ∈ g₂.extraFiles.map File.noOverlay,
+      f₁.overlay = none → f₂.overlay = none → f₁.path = f₂.path →
       f₁.size = f₂.size → f₁.mtime = f₂.mtime → f₁.content = f₂.content)
-    (henv : compilerEnvVars.map (getenv g₁) = compilerEnvVars.map (getenv g₂))
-    (he : envSection g₁ = envSection g₂) (hc : commonSection hb g₁ = commonSection hb g₂) :
+    (henv : cfg.ccflagsEnv = false → compilerEnvVars.map (getenv g₁) = compilerEnvVars.map (getenv g₂))
+    (he : envSection cfg g₁ = envSection cfg g₂) (hc : commonSection cfg hb g₁ = commonSection cfg hb g₂) :
     globRel g₁ = globRel g₂ := by
   simp only [envSection, EnvSection.mk.injEq] at he
   simp only [commonSection, CommonSection.mk.injEq, exportCCFlags, List.cons.injEq] at hc
   obtain ⟨e1, e2, e3, e4, e5, e6, e7, e8⟩ := he
   obtain ⟨c1, _, c3, c4, c5, ⟨c6, c6'⟩, c7, c8, c9, c10⟩ := hc
-  have hv := map_eq_of_envFilter_eq (getenv g₁) (getenv g₂) listedEnvVars (by decide) e8
-  have hx := relFiles_of_digestFiles hb hinj _ _ hm c10
+  have hv := map_eq_of_envFilter_eq (getenv g₁) (getenv g₂) (envNames cfg) (envNames_nodup cfg) e8
+  have hx := relFiles_of_digestFiles cfg hb hinj _ _ hm c10
+  have hboth : listedEnvVars.map (getenv g₁) = listedEnvVars.map (getenv g₂)
+      ∧ compilerEnvVars.map (getenv g₁) = compilerEnvVars.map (getenv g₂) := by
+    cases hcc : cfg.ccflagsEnv
+    · simp only [envNames, hcc, Bool.false_eq_true, if_false] at hv
+      exact ⟨hv, henv hcc⟩
+    · simp only [envNames, hcc, if_true, List.map_append] at hv
+      have := List.append_inj hv (by simp)
+      exact ⟨this.2, this.1⟩
   simp only [globRel, GlobRel.mk.injEq]
-  exact ⟨e1, e2, c3, c4, e6, c1, OptLevel.flag_inj c6, e3, e4, e5, e7, c5, c6', c7, c8, c9, hx, hv, henv⟩
+  exact ⟨e1, e2, c3, c4, e6, c1, OptLevel.flag_inj c6, e3, e4, e5, e7, c5, c6', c7, c8, c9, hx, hboth.1, hboth.2⟩
 
 theorem ownRel_of_section (hinj : Function.Injective hb) (g₁ g₂ : Global) (d₁ d₂ : PkgData)
-    (hm : ∀ f₁ ∈ diskFiles g₁ d₁, ∀ f₂ ∈ diskFiles g₂ d₂, f₁.overlay = none → f₂.overlay = none → f₁.path = f₂.path →
-      f₁.size = f₂.size → f₁.mtime = f₂.mtime → f₁.content = f₂.content)
+    (hm : cfg.contentHash = false → ∀ f₁ ∈ diskFiles g₁ d₁, ∀ f₂ ∈ diskFiles g₂ d₂, f₁.overlay = none → f₂.overlay = none →
+      f₁.path = f₂.path → f₁.size = f₂.size → f₁.mtime = f₂.mtime → f₁.content = f₂.content)
     (hs₁ : d₁.sideFiles = []) (hs₂ : d₂.sideFiles = []) (he₁ : d₁.embedFiles = []) (he₂ : d₂.embedFiles = [])
-    (hp : packageSection hb g₁ d₁ = packageSection hb g₂ d₂) : ownRel g₁ d₁ = ownRel g₂ d₂ := by
+    (hp : packageSection cfg hb g₁ d₁ = packageSection cfg hb g₂ d₂) : ownRel g₁ d₁ = ownRel g₂ d₂ := by
   simp only [packageSection, PackageSection.mk.injEq] at hp
   obtain ⟨p1, p2, p3, p4, p5, p6⟩ := hp
-  have hgo := relFiles_of_digestFiles hb hinj _ _
-    (fun f₁ h₁ f₂ h₂ => hm f₁ (by simp [diskFiles, h₁]) f₂ (by simp [diskFiles, h₂])) p3
-  have halt := relFiles_of_digestFiles hb hinj _ _
-    (fun f₁ h₁ f₂ h₂ => hm f₁ (by simp [diskFiles, h₁]) f₂ (by simp [diskFiles, h₂])) p4
-  have hoth := relFiles_of_digestFiles hb hinj _ _
-    (fun f₁ h₁ f₂ h₂ => hm f₁ (by simp [diskFiles, h₁]) f₂ (by simp [diskFiles, h₂])) p5
+  have hgo := relFiles_of_digestFiles cfg hb hinj _ _
+    (fun hc f₁ h₁ f₂ h₂ => hm hc f₁ (by simp [diskFiles, h₁]) f₂ (by simp [diskFiles, h₂])) p3
+  have halt := relFiles_of_digestFiles cfg hb hinj _ _
+    (fun hc f₁ h₁ f₂ h₂ => hm hc f₁ (by simp [diskFiles, h₁]) f₂ (by simp [diskFiles, h₂])) p4
+  have hoth := relFiles_of_digestFiles cfg hb hinj _ _
+    (fun hc f₁ h₁ f₂ h₂ => hm hc f₁ (by simp [diskFiles, h₁]) f₂ (by simp [diskFiles, h₂])) p5
   simp only [ownRel, OwnRel.mk.injEq, hs₁, hs₂, he₁, he₂]
   exact ⟨p1, p2, hgo, halt, hoth, trivial, trivial, p6⟩
 
 /-- `dependencyFingerprint` of one import -/
 def entryOf (g : Global) (t : PkgT) : DepEntry φ :=
   if t.data.modVersion ≠ "" then { id := t.data.id, version := t.data.modVersion, fingerprint := none }
-  else { id := t.data.id, version := "", fingerprint := some (fp (key hb fp g t)) }
+  else { id := t.data.id, version := "", fingerprint := some (fp (key cfg hb fp g t)) }
 
 def relOf (g : Global) (t : PkgT) : Rel :=
   if t.data.modVersion ≠ "" then .versioned t.data.id t.data.modVersion else relevant g t
 
-theorem depEntries_eq_map (g : Global) (ts : List PkgT) : depEntries hb fp g ts = ts.map (entryOf hb fp g) := by
+theorem depEntries_eq_map (g : Global) (ts : List PkgT) : depEntries cfg hb fp g ts = ts.map (entryOf cfg hb fp g) := by
   induction ts with
   | nil => simp [depEntries]
   | cons t ts ih => simp [depEntries, entryOf, ih]
@@ -366,7 +384,7 @@ theorem depRels_eq_map (g : Global) (ts : List PkgT) : depRels g ts = ts.map (re
   | nil => simp [depRels]
   | cons t ts ih => simp [depRels, relOf, ih]
 
-theorem entryOf_id (g : Global) (t : PkgT) : (entryOf hb fp g t).id = t.data.id := by
+theorem entryOf_id (g : Global) (t : PkgT) : (entryOf cfg hb fp g t).id = t.data.id := by
   unfold entryOf; split <;> rfl
 
 theorem relOf_id (g : Global) (t : PkgT) : (relOf g t).id = t.data.id := by
@@ -379,14 +397,14 @@ theorem relOf_id (g : Global) (t : PkgT) : (relOf g t).id = t.data.id := by
 def tLe (a b : PkgT) : Bool := strLe a.data.id b.data.id
 
 theorem key_deps_eq (g : Global) (d : PkgData) (deps : List PkgT) :
-    (key hb fp g (.mk d deps)).deps
-      = (isort tLe (deps.filter fun t => t.data.id != d.id)).map (entryOf hb fp g) := by
+    (key cfg hb fp g (.mk d deps)).deps
+      = (isort tLe (deps.filter fun t => t.data.id != d.id)).map (entryOf cfg hb fp g) := by
   simp only [key]
   rw [depEntries_eq_map, List.filter_map]
-  have : ((fun e : DepEntry φ => e.id != d.id) ∘ entryOf hb fp g) = fun t => t.data.id != d.id := by
+  have : ((fun e : DepEntry φ => e.id != d.id) ∘ entryOf cfg hb fp g) = fun t => t.data.id != d.id := by
     funext t; simp [Function.comp, entryOf_id]
   rw [this]
-  exact isort_map tLe (entryOf hb fp g) depLe (fun a b => by simp [depLe, tLe, entryOf_id]) _
+  exact isort_map tLe (entryOf cfg hb fp g) depLe (fun a b => by simp [depLe, tLe, entryOf_id]) _
 
 theorem relevant_deps_eq (g : Global) (d : PkgData) (deps : List PkgT) :
     relevant g (.mk d deps) = .pkg (globRel g) (ownRel g d)
@@ -401,22 +419,22 @@ theorem relevant_deps_eq (g : Global) (d : PkgData) (deps : List PkgT) :
 
 /-- **the key determines the relevant inputs, under `Hyp`** (proved from the transcribed `key`) -/
 theorem key_covers_of_hyp (hbi : Function.Injective hb) (fpi : Function.Injective fp) :
-    (t₁ : PkgT) → ∀ (g₁ g₂ : Global) (t₂ : PkgT), Hyp (g₁, t₁) (g₂, t₂) →
-      key hb fp g₁ t₁ = key hb fp g₂ t₂ → relevant g₁ t₁ = relevant g₂ t₂
+    (t₁ : PkgT) → ∀ (g₁ g₂ : Global) (t₂ : PkgT), Hyp cfg (g₁, t₁) (g₂, t₂) →
+      key cfg hb fp g₁ t₁ = key cfg hb fp g₂ t₂ → relevant g₁ t₁ = relevant g₂ t₂
   | .mk d₁ deps₁, g₁, g₂, .mk d₂ deps₂, hyp, hk => by
-    have hdeps : (key hb fp g₁ (.mk d₁ deps₁)).deps = (key hb fp g₂ (.mk d₂ deps₂)).deps := by rw [hk]
+    have hdeps : (key cfg hb fp g₁ (.mk d₁ deps₁)).deps = (key cfg hb fp g₂ (.mk d₂ deps₂)).deps := by rw [hk]
     rw [key_deps_eq, key_deps_eq] at hdeps
-    have henv : (key hb fp g₁ (.mk d₁ deps₁)).env = (key hb fp g₂ (.mk d₂ deps₂)).env := by rw [hk]
-    have hcom : (key hb fp g₁ (.mk d₁ deps₁)).common = (key hb fp g₂ (.mk d₂ deps₂)).common := by rw [hk]
-    have hpkg : (key hb fp g₁ (.mk d₁ deps₁)).pkg = (key hb fp g₂ (.mk d₂ deps₂)).pkg := by rw [hk]
+    have henv : (key cfg hb fp g₁ (.mk d₁ deps₁)).env = (key cfg hb fp g₂ (.mk d₂ deps₂)).env := by rw [hk]
+    have hcom : (key cfg hb fp g₁ (.mk d₁ deps₁)).common = (key cfg hb fp g₂ (.mk d₂ deps₂)).common := by rw [hk]
+    have hpkg : (key cfg hb fp g₁ (.mk d₁ deps₁)).pkg = (key cfg hb fp g₂ (.mk d₂ deps₂)).pkg := by rw [hk]
     simp only [key] at henv hcom hpkg
     obtain ⟨h1, h2, h3, h4, h5, h6⟩ := hyp
     have hg : globRel g₁ = globRel g₂ :=
-      globRel_of_sections hb hbi g₁ g₂
-        (fun f₁ hf₁ f₂ hf₂ => h1 f₁ (by simp [Inputs.files, hf₁]) f₂ (by simp [Inputs.files, hf₂])) h4 henv hcom
+      globRel_of_sections cfg hb hbi g₁ g₂
+        (fun hc f₁ hf₁ f₂ hf₂ => h1 hc f₁ (by simp [Inputs.files, hf₁]) f₂ (by simp [Inputs.files, hf₂])) h4 henv hcom
     have ho : ownRel g₁ d₁ = ownRel g₂ d₂ :=
-      ownRel_of_section hb hbi g₁ g₂ d₁ d₂
-        (fun f₁ hf₁ f₂ hf₂ => h1 f₁ (by
+      ownRel_of_section cfg hb hbi g₁ g₂ d₁ d₂
+        (fun hc f₁ hf₁ f₂ hf₂ => h1 hc f₁ (by
             simp only [Inputs.files, List.mem_append, List.mem_flatMap]
             exact Or.inr ⟨d₁, by simp [PkgT.all], hf₁⟩) f₂ (by
             simp only [Inputs.files, List.mem_append, List.mem_flatMap]
@@ -453,16 +471,16 @@ end KeyLemmas
 /-! ## the cache invariant -/
 
 section Invariant
-variable {φ : Type} [DecidableEq φ] (hb : Bytes → φ) (fp : Manifest φ → φ)
+variable {φ : Type} [DecidableEq φ] (cfg : Cfg) (hb : Bytes → φ) (fp : Manifest φ → φ)
 variable {Obj : Type} (compileRel : Rel → Obj)
 
 /-- every entry was produced by compiling *some* unit (in the universe `S`) that has this fingerprint -/
 def CacheOK (S : Inputs → Prop) (c : CacheMap φ Obj) : Prop :=
-  ∀ e ∈ c, ∃ g t, S (g, t) ∧ e.1 = fp (key hb fp g t) ∧ e.2 = compileRel (relevant g t)
+  ∀ e ∈ c, ∃ g t, S (g, t) ∧ e.1 = fp (key cfg hb fp g t) ∧ e.2 = compileRel (relevant g t)
 
 /-- the key determines the relevant inputs on the units of `S` -/
 def KeyCoversOn (S : Inputs → Prop) : Prop :=
-  ∀ i₁ i₂ : Inputs, S i₁ → S i₂ → key hb fp i₁.1 i₁.2 = key hb fp i₂.1 i₂.2 → relevant i₁.1 i₁.2 = relevant i₂.1 i₂.2
+  ∀ i₁ i₂ : Inputs, S i₁ → S i₂ → key cfg hb fp i₁.1 i₁.2 = key cfg hb fp i₂.1 i₂.2 → relevant i₁.1 i₁.2 = relevant i₂.1 i₂.2
 
 theorem lookup_mem {c : CacheMap φ Obj} {k : φ} {o : Obj} (h : lookup c k = some o) : (k, o) ∈ c := by
   unfold lookup at h
@@ -477,11 +495,11 @@ theorem lookup_mem {c : CacheMap φ Obj} {k : φ} {o : Obj} (h : lookup c k = so
     exact hm
   · cases h
 
-theorem buildPkg_ok (S : Inputs → Prop) (fpi : Function.Injective fp) (hk : KeyCoversOn hb fp S)
+theorem buildPkg_ok (S : Inputs → Prop) (fpi : Function.Injective fp) (hk : KeyCoversOn cfg hb fp S)
     (o : BuildOpts) (g : Global) (c : CacheMap φ Obj) (t : PkgT) (hS : S (g, t))
-    (hc : CacheOK hb fp compileRel S c) :
-    (buildPkg hb fp compileRel o g c t).2 = compileRel (relevant g t)
-      ∧ CacheOK hb fp compileRel S (buildPkg hb fp compileRel o g c t).1 := by
+    (hc : CacheOK cfg hb fp compileRel S c) :
+    (buildPkg cfg hb fp compileRel o g c t).2 = compileRel (relevant g t)
+      ∧ CacheOK cfg hb fp compileRel S (buildPkg cfg hb fp compileRel o g c t).1 := by
   unfold buildPkg
   simp only
   split
@@ -502,14 +520,14 @@ theorem buildPkg_ok (S : Inputs → Prop) (fpi : Function.Injective fp) (hk : Ke
       · exact hc e he
     · exact hc
 
-theorem buildProg_ok (S : Inputs → Prop) (fpi : Function.Injective fp) (hk : KeyCoversOn hb fp S)
+theorem buildProg_ok (S : Inputs → Prop) (fpi : Function.Injective fp) (hk : KeyCoversOn cfg hb fp S)
     (o : BuildOpts) (g : Global) : ∀ (ts : List PkgT) (c : CacheMap φ Obj), (∀ t ∈ ts, S (g, t)) →
-      CacheOK hb fp compileRel S c →
-      (buildProg hb fp compileRel o g c ts).2 = cleanBuild compileRel g ts
-        ∧ CacheOK hb fp compileRel S (buildProg hb fp compileRel o g c ts).1
+      CacheOK cfg hb fp compileRel S c →
+      (buildProg cfg hb fp compileRel o g c ts).2 = cleanBuild compileRel g ts
+        ∧ CacheOK cfg hb fp compileRel S (buildProg cfg hb fp compileRel o g c ts).1
   | [], c, _, hc => ⟨rfl, hc⟩
   | t :: ts, c, hS, hc => by
-    have h1 := buildPkg_ok hb fp compileRel S fpi hk o g c t (hS t List.mem_cons_self) hc
+    have h1 := buildPkg_ok cfg hb fp compileRel S fpi hk o g c t (hS t List.mem_cons_self) hc
     have h2 := buildProg_ok S fpi hk o g ts _ (fun u hu => hS u (List.mem_cons_of_mem _ hu)) h1.2
     simp only [buildProg, cleanBuild, List.map]
     exact ⟨by rw [h1.1, h2.1]; rfl, h2.2⟩
@@ -522,17 +540,17 @@ def StepIn (S : Inputs → Prop) : Step → Prop
 
 structure Inv (S : Inputs → Prop) (s : State φ Obj) : Prop where
   prog : ProgIn S s.prog
-  cache : CacheOK hb fp compileRel S s.cache
+  cache : CacheOK cfg hb fp compileRel S s.cache
   trace : ∀ po ∈ s.trace, po.2 = cleanBuild compileRel po.1.glob po.1.pkgs
 
-theorem step_inv (S : Inputs → Prop) (fpi : Function.Injective fp) (hk : KeyCoversOn hb fp S)
-    (s : State φ Obj) (st : Step) (hst : StepIn S st) (h : Inv hb fp compileRel S s) :
-    Inv hb fp compileRel S (step hb fp compileRel s st) := by
+theorem step_inv (S : Inputs → Prop) (fpi : Function.Injective fp) (hk : KeyCoversOn cfg hb fp S)
+    (s : State φ Obj) (st : Step) (hst : StepIn S st) (h : Inv cfg hb fp compileRel S s) :
+    Inv cfg hb fp compileRel S (step cfg hb fp compileRel s st) := by
   cases st with
   | edit p => exact ⟨hst, h.cache, h.trace⟩
   | clean => exact ⟨h.prog, fun e he => (by cases he), h.trace⟩
   | build o =>
-    have hb' := buildProg_ok hb fp compileRel S fpi hk o s.prog.glob s.prog.pkgs s.cache h.prog h.cache
+    have hb' := buildProg_ok cfg hb fp compileRel S fpi hk o s.prog.glob s.prog.pkgs s.cache h.prog h.cache
     refine ⟨h.prog, hb'.2, ?_⟩
     intro po hpo
     simp only [step] at hpo
@@ -540,24 +558,24 @@ theorem step_inv (S : Inputs → Prop) (fpi : Function.Injective fp) (hk : KeyCo
     · exact hb'.1
     · exact h.trace po hpo
 
-theorem run_inv (S : Inputs → Prop) (fpi : Function.Injective fp) (hk : KeyCoversOn hb fp S) :
-    ∀ (steps : List Step) (s : State φ Obj), (∀ st ∈ steps, StepIn S st) → Inv hb fp compileRel S s →
-      Inv hb fp compileRel S (run hb fp compileRel s steps)
+theorem run_inv (S : Inputs → Prop) (fpi : Function.Injective fp) (hk : KeyCoversOn cfg hb fp S) :
+    ∀ (steps : List Step) (s : State φ Obj), (∀ st ∈ steps, StepIn S st) → Inv cfg hb fp compileRel S s →
+      Inv cfg hb fp compileRel S (run cfg hb fp compileRel s steps)
   | [], _, _, h => h
   | st :: rest, s, hs, h =>
     run_inv S fpi hk rest _ (fun x hx => hs x (List.mem_cons_of_mem _ hx))
-      (step_inv hb fp compileRel S fpi hk s st (hs st List.mem_cons_self) h)
+      (step_inv cfg hb fp compileRel S fpi hk s st (hs st List.mem_cons_self) h)
 
 theorem run_append (s : State φ Obj) (a b : List Step) :
-    run hb fp compileRel s (a ++ b) = run hb fp compileRel (run hb fp compileRel s a) b := by
+    run cfg hb fp compileRel s (a ++ b) = run cfg hb fp compileRel (run cfg hb fp compileRel s a) b := by
   induction a generalizing s with
   | nil => rfl
   | cons x xs ih => simp only [List.cons_append, run]; exact ih _
 
 /-- two units with the same fingerprint: after `build, edit, build` the second build hands out the FIRST unit's archive -/
-theorem served_stale (g₁ g₂ : Global) (t₁ t₂ : PkgT) (hk : fp (key hb fp g₂ t₂) = fp (key hb fp g₁ t₁))
+theorem served_stale (g₁ g₂ : Global) (t₁ t₂ : PkgT) (hk : fp (key cfg hb fp g₂ t₂) = fp (key cfg hb fp g₁ t₁))
     (hn : (t₁.data.name != "main") = true) :
-    served hb fp compileRel ⟨g₁, [t₁]⟩ [.build {}, .edit ⟨g₂, [t₂]⟩, .build {}]
+    served cfg hb fp compileRel ⟨g₁, [t₁]⟩ [.build {}, .edit ⟨g₂, [t₂]⟩, .build {}]
       = some [compileRel (relevant g₁ t₁)] := by
   simp [served, run, step, State.init, buildProg, buildPkg, lookup, List.find?, hk, hn]
 
